@@ -230,6 +230,44 @@ def t3_order(fns, consts):
     return O._finish(ob, t0, sorted(set(bad))[:6])
 
 
+def t3b_layout_order(fns, consts):
+    ob = O._ob('c11_mir_layout_items_in_order', 'uigen::layout::Layout::serialize_to_xml', 'a layout with two items (symbolic values in vector order); every combination of empty / non-empty attribute arrays; io errors not followed',
+               'children[0] then children[1] are serialised, each exactly once, after the <layout> start tag and before its end tag')
+    t0 = time.time()
+    bad = []
+    try:
+        cands = [f for n, f in fns.items() if n.endswith('::serialize_to_xml') and '(_1: &layout::Layout,' in f.header]
+        if len(cands) != 1:
+            raise M.MirError(f'{len(cands)} Layout::serialize_to_xml bodies')
+        lfields = O.struct_fields('lib/src/uigen/layout.rs', 'Layout')
+        me = M.Adt('Layout', [M.Opaque('layout.' + f) for f in lfields], lfields)
+        eng = VecSeq(fns, consts, ['layout.children'])
+        it = eng.interp(cands[0], {'_1': M.Ref(me)})
+        p0 = M.Path()
+        p0.heap = {}
+        n = 0
+        for q in it.run(path=p0, max_paths=3000):
+            if q.end != 'return' or M.check(q.pc) == 'unsat':
+                continue
+            n += 1
+            tr = q.heap.get('#trace', ())
+            kids = [i for i, t in enumerate(tr) if 'serialize_to_xml(' in t and 'layout.children[' in t]
+            order = [re.search(r'layout\.children\[(\d)\]', tr[i]).group(1) for i in kids]
+            if order != ['0', '1']:
+                bad.append(f'layout items are serialised in the order {order}')
+            ws = [i for i, t in enumerate(tr) if t.startswith('Writer') and 'write_event' in t]
+            if ws and kids and not (ws[0] < kids[0] and kids[-1] < ws[-1]):
+                bad.append('a layout item is serialised outside the start / end tag of the layout')
+        if n == 0:
+            bad.append('no path (stale)')
+        ob['paths'] = n
+    except M.MirError as e:
+        O._finish(ob, t0, ['MIR: ' + str(e)], unknown=True)
+        ob['detail'] = 'MIR: ' + str(e)
+        return ob
+    return O._finish(ob, t0, sorted(set(bad))[:6])
+
+
 def t4_builders(fns, consts):
     ob = O._ob('c11_mir_children_built_in_order', 'uigen::object::{process_widget_children, collect_action_like_children, UiObject::serialize_to_xml}',
                'all paths; iterator adaptors as terms', 'the children vector is obj_node.children().map(UiObject::build).collect() and the action names children.iter().filter_map(..).collect(): '
@@ -248,6 +286,11 @@ def t4_builders(fns, consts):
                     bad.append(f'{fn.name}: built by {names}, expected the chain {want}')
                 if any(n in banned for n in names):
                     bad.append(f'{fn.name}: a reordering / truncating adaptor is applied: {names}')
+                # no other iterator adaptor at all (unique, dedup, filter, chain, ...): the chain is exactly the documented one
+                adaptors = [c.callee.split('::<')[0].split('::')[-1] for c in q.calls if re.search(r' as (Iterator|Itertools|IntoIterator|DoubleEndedIterator)>::', c.callee)]
+                extra = [a for a in adaptors if a not in want and a != 'into_iter']
+                if extra:
+                    bad.append(f'{fn.name}: additional iterator adaptors on the way: {extra}')
                 t = canon(q.ret)
                 if 'collect(' not in t:
                     bad.append(f'{fn.name}: the result is not the collected chain: {t[:80]}')
@@ -286,6 +329,7 @@ QMainWindow {
             QAction { id: openAct; text: "Open" }
             QAction { separator: true }
             QMenu { id: recent; title: "Recent" }
+            QAction { separator: true }
             QAction { id: quitAct; text: "Quit" }
         }
     }
@@ -330,7 +374,7 @@ def replay(workdir):
                 out.append(('addaction', ch.get('name')))
         return out
     got = (root.get('class'), root.get('name'), shape(root))
-    menu = [('addaction', 'openAct'), ('addaction', 'separator'), ('addaction', 'recent'), ('addaction', 'quitAct'), ('action', None, 'openAct', []), ('widget', 'QMenu', 'recent', []), ('action', None, 'quitAct', [])]
+    menu = [('addaction', 'openAct'), ('addaction', 'separator'), ('addaction', 'recent'), ('addaction', 'separator'), ('addaction', 'quitAct'), ('action', None, 'openAct', []), ('widget', 'QMenu', 'recent', []), ('action', None, 'quitAct', [])]
     want = ('QMainWindow', 'win', [
         ('widget', 'QMenuBar', 'bar', [('addaction', 'fileMenu'), ('widget', 'QMenu', 'fileMenu', menu)]),
         ('widget', 'QWidget', 'central', [('layout', 'QVBoxLayout', 'lay', [
@@ -354,7 +398,7 @@ def replay(workdir):
 
 def run(res, args):
     fns, consts = O.load()
-    obs = [t1_dispatch(fns, consts), t2_actions(fns, consts), t3_order(fns, consts), t4_builders(fns, consts)]
+    obs = [t1_dispatch(fns, consts), t2_actions(fns, consts), t3_order(fns, consts), t3b_layout_order(fns, consts), t4_builders(fns, consts)]
 
     def rp(ob, d):
         rep, info = replay(d)
